@@ -111,13 +111,16 @@ func (g *SG) Prologue() []Stmt {
 		&Assign{Target: "vn", Op: "=", E: &Ref{"H.In.X"}},
 		// ... and to the value of a whole array-typed field (arrays are values, not references)
 		&Assign{Target: "vw", Op: "=", E: &Ref{"H.AW"}},
+		// ... and to a slice-typed field: the local keeps the slice it was given when the field gets another one
+		&Assign{Target: "vl", Op: "=", E: &Ref{"H.SL"}},
 	}
 }
 
 // Epilogue observes the final locals.
 func (g *SG) Epilogue() []Stmt {
 	return []Stmt{g.tv(&Ref{"va"}), g.tv(&Ref{"vb"}), g.tv(&Ref{"vc"}), g.tv(&Ref{"vs"}), g.tv(&Ref{"vf"}), g.tv(&Ref{"vt"}), g.tv(&Ref{"vh"}), g.tv(&Ref{"ve"}), g.tv(&Ref{"vn"}),
-		g.tv(&Elem{Cont: "vw", KeyInt: is(0)}), g.tv(&Elem{Cont: "vw", KeyInt: is(1)}), g.tv(&Elem{Cont: "vw", KeyInt: is(2)}), g.tv(&Ref{"vw"})}
+		g.tv(&Elem{Cont: "vw", KeyInt: is(0)}), g.tv(&Elem{Cont: "vw", KeyInt: is(1)}), g.tv(&Elem{Cont: "vw", KeyInt: is(2)}), g.tv(&Ref{"vw"}),
+		g.tv(&Elem{Cont: "vl", KeyInt: is(0)}), g.tv(&Elem{Cont: "vl", KeyInt: is(3)})}
 }
 
 // Block generates a block; inLoop says whether break/continue are meaningful here.
@@ -169,7 +172,18 @@ func (g *SG) simple() Stmt {
 		k := int64(r.Intn(4))
 		return &Assign{Elem: &Elem{Cont: "VS", KeyInt: &k}, Op: []string{"=", "+=", "-="}[r.Intn(3)], E: g.smallInt(1)}
 	default:
-		switch r.Intn(7) {
+		switch r.Intn(8) {
+		case 7:
+			switch r.Intn(4) {
+			case 0:
+				g.Stats["slice_field_replaced"]++
+				return &Assign{Target: "H.SL", Op: "=", E: &Ref{"H.SL2"}}
+			case 1:
+				g.Stats["rebind_from_slice_field"]++
+				return &Assign{Target: "vl", Op: "=", E: &Ref{"H.SL"}}
+			}
+			k := int64(r.Intn(4))
+			return g.tv(&Elem{Cont: "vl", KeyInt: &k})
 		case 5:
 			// store into an element of the array field a local was bound to
 			g.Stats["store_into_array_field"]++
@@ -239,6 +253,13 @@ func (g *SG) stmt(nest int, inLoop, mayReturn bool) []Stmt {
 		g.keyVar++
 		kv := fmt.Sprintf("k%d", g.keyVar)
 		c := []string{"VS", "VA", "H.SL", "VSS", "H.AR", "VE", "H.AW"}[r.Intn(7)]
+		if r.Intn(10) == 0 {
+			// the loop variable names a pointer-injected scalar: every round stores the index through it
+			// (the host sees the last index afterwards); its value is not read inside the rule
+			g.Stats["forrange_key_is_injected"]++
+			body := append([]Stmt{g.tr()}, g.Block(nest+1, true, true)[1:]...)
+			return []Stmt{&ForRange{Key: "PI64", Cont: c, Body: body}}
+		}
 		body := []Stmt{g.tv(&Ref{kv}), g.tv(&Elem{Cont: c, KeyVar: kv})}
 		body = append(body, g.Block(nest+1, true, true)[1:]...)
 		return []Stmt{&ForRange{Key: kv, Cont: c, Body: body}}
